@@ -1,7 +1,7 @@
 """C15 — after successful lowering no backend crashes (DESIGN §5 C15, partial)."""
 import re, collections
 from common import *
-import gate_run, tablegen, e2e, abigen, c15_fixed
+import gate_run, tablegen, e2e, abigen, c15_fixed, c15_docs
 from c13 import BACKENDS, CFG
 
 PROP = "C15"
@@ -23,6 +23,62 @@ def shape_class(pos, t):
     return f"{pos}:{s(t)}"
 
 
+# The recorded findings are classes of inputs, not panic messages: a panic is only matched against a recorded finding when the input
+# that triggers it lies in the class the finding describes (position + shape); the same message on any other input is a new violation.
+CAUSES = [
+    ("optional-slice-param", ("PParam",), r"(Diplomat)?Option<(owned-)?(static-)?(dipl-)?(pslice|str|strslice)>"),
+    ("result-with-primitive-error", ("PReturn",), r"Result<.*,prim>"),
+    ("result-with-struct-or-enum-error", ("PReturn",), r"Result<.*,(Enum|Struct|OutStruct|Zst)>"),
+    ("result-with-opaque-error", ("PReturn",), r"Result<.*,box<Opaque>>"),
+    ("string-list-slice-struct-field", ("PStructField",), r"(DiplomatOption<)?(dipl-)?strslice>?"),
+    ("static-slice-out-struct-field", ("POutStructField",), r"static-(pslice|str)"),
+    ("optional-zst-out-struct-field", ("POutStructField",), r"DiplomatOption<Zst>"),
+    ("callback-position", ("PCbParam", "PCbRet"), r".*"),
+]
+
+
+def cause_class(pos, shape):
+    for name, poss, rx in CAUSES:
+        if pos in poss and re.fullmatch(rx, shape):
+            return name
+    return f"{pos}:{shape}"
+
+
+def abigen_shape(t):
+    """abigen's types in the vocabulary of shape_class"""
+    k = t[0]
+    if k == "prim": return "prim"
+    if k == "enum": return "Enum"
+    if k == "struct": return "Struct"
+    if k == "zst": return "Zst"
+    if k in ("optslice",): return "Option<pslice>"
+    if k in ("optstr",): return "Option<str>"
+    if k == "slice": return ("owned-" if t[2] == "box" else "") + "pslice"
+    if k == "str": return ("owned-" if t[2] != "ref" else "") + ("dipl-" if t[1] != "utf8" else "") + "str"
+    if k == "opt": return ("Option" if t[1] == "std" else "DiplomatOption") + f"<{abigen_shape(t[2])}>"
+    if k == "res": return f"Result<{abigen_shape(t[1])},{abigen_shape(t[2])}>"
+    if k in ("obox", "oboxopt"): return "box<Opaque>" if k == "obox" else "Option<box<Opaque>>"
+    if k in ("oref", "orefret", "oopt", "orefopt"): return "ref<Opaque>" if k in ("oref", "orefret") else "Option<ref<Opaque>>"
+    return k
+
+
+def module_panic_keys(b, mod, methods, extra, site, slug, d):
+    """a generated module panicked: find the methods that panic on their own and name the classes of their parameter / return shapes"""
+    keys = []
+    for m in methods:
+        path = os.path.join(d, "single.rs"); open(path, "w").write(abigen.rust_source(mod, [m]))
+        q = e2e.run_tool(b, path, os.path.join(d, "out_single"), config=CFG + extra)
+        if e2e.classify_tool(q) != "panic" or e2e.panic_site(q.stderr) != (site, slug):
+            continue
+        cands = [cause_class("PParam", abigen_shape(t)) for _, t in m["params"]] + [cause_class("PReturn", abigen_shape(m["ret"]))]
+        named = [c for c in cands if ":" not in c]
+        # a method can lie in several recorded classes: the one recorded for this very panic is the one that explains it
+        known = {k for k, _ in known_findings(PROP)}
+        explained = [c for c in named if f"panic:{b}:{site}:{slug}:{c}" in known]
+        keys.append(((explained or named)[0] if named else "method(" + ",".join(cands) + ")", m))
+    return keys
+
+
 def check(ctx, replay=None):
     build_harness()
     tablegen.main()
@@ -38,7 +94,7 @@ def check(ctx, replay=None):
             site, slug = e2e.panic_site(err)
             if site.startswith("core/src/ast/"):
                 continue            # the source is rejected while being parsed, before lowering: outside the property
-            key = f"panic:{b}:{site}:{slug}"
+            key = f"panic:{b}:{site}:{slug}:{cause_class(*shape_class(pos, t).split(':', 1))}"
             panics.setdefault(key, (b, pos, t, err))
     # every accepted witness is its own class (so the enumeration is what the theorems say it is)
     seen = set()
@@ -57,7 +113,8 @@ def check(ctx, replay=None):
     big = 0
     for bi in range(2 if ctx.quick() else 12):
         mod = abigen.Module(rng)
-        src = abigen.rust_source(mod, abigen.gen_methods(mod, 30, rng))
+        mmethods = abigen.gen_methods(mod, 30, rng)
+        src = abigen.rust_source(mod, mmethods)
         path = os.path.join(d, f"big{bi}.rs"); open(path, "w").write(src)
         for b in BACKENDS:
             for extra in ([[]] + ([["js.abi=spec"]] if b in ("js", "demo_gen") else []) + ([["kotlin.use_finalizers_not_cleaners=true"]] if b == "kotlin" else [])):
@@ -66,8 +123,13 @@ def check(ctx, replay=None):
                 if e2e.classify_tool(q) == "panic":
                     site, slug = e2e.panic_site(q.stderr)
                     if not (site.startswith("core/src/ast/") and e2e.panic_before_lowering(b, path, os.path.join(d, "out"), config=CFG + extra)):
-                        ctx.violation(f"panic:{b}:{site}:{slug}", {"backend": b, "config": extra, "what": "panic on a generated module that passed lowering",
-                                                                 "stderr": q.stderr[-600:], "lib_rs": src[:3000]}, True)
+                        singles = module_panic_keys(b, mod, mmethods, extra, site, slug, d)
+                        for cause, m in singles:
+                            ctx.violation(f"panic:{b}:{site}:{slug}:{cause}", {"backend": b, "config": extra, "what": "panic on a generated method that passed lowering",
+                                                                           "stderr": q.stderr[-600:], "lib_rs": abigen.rust_source(mod, [m])}, True)
+                        if not singles:
+                            ctx.violation(f"panic:{b}:{site}:{slug}:generated-module", {"backend": b, "config": extra, "what": "panic on a generated module that passed lowering "
+                                          "(no single method of it reproduces the panic)", "stderr": q.stderr[-600:], "lib_rs": src[:3000]}, True)
     # fixed bridges: documentation links of every kind / display / depth, special-method attributes on every kind of type
     fixed = 0
     for name, src in c15_fixed.bridges():
@@ -82,13 +144,13 @@ def check(ctx, replay=None):
                         site, slug = e2e.panic_site(q.stderr)
                         if site.startswith("core/src/ast/") and e2e.panic_before_lowering(b, path, os.path.join(d, "out"), config=CFG + extra, extra_args=ua):
                             continue
-                        ctx.violation(f"panic:{b}:{site}:{slug}", {"backend": b, "config": extra, "args": ua, "bridge": name,
+                        ctx.violation(f"panic:{b}:{site}:{slug}:bridge-{name}", {"backend": b, "config": extra, "args": ua, "bridge": name,
                                                                  "what": f"panic on the fixed `{name}` bridge, which passed lowering", "stderr": q.stderr[-600:],
                                                                  "lib_rs": src[:4000]}, True)
     big += fixed
-    fails = []
+    ndocs, dgoals, fails, dkinds = c15_docs.run(ctx)
     return batch_evidence(
-        ctx, PROP, phase, [], fails, len(res) + big, len({(c[0], json.dumps(c[1])) for c in cs}),
+        ctx, PROP, phase, dgoals, fails, len(res) + big, len({(c[0], json.dumps(c[1])) for c in cs}),
         "one witness bridge per (position, type) of the AST type grammar to depth 2 (see C05) for each of the 7 backends through the real CLI, plus "
         "generated grammar-wide modules under the config variants (js.abi legacy/spec, kotlin finalizers, lib_name), plus fixed bridges with a "
         "rust_link of each of the 22 kinds x display style x module depth (also shorter-than-needed paths) under three docs-URL settings and every "
@@ -96,10 +158,12 @@ def check(ctx, replay=None):
         "struct, out-struct and enum types, all gated with `auto`; observed: exit class "
         "ok | lowering/back-end diagnostics | panic. Every panic after lowering is a violation keyed by (backend, panic site, shape class). "
         "evaluations = tool runs; distinct_nontrivial = distinct witnesses",
-        "Modelled, not verified: the gate (Gate/Model.v) and the depth bound of what it accepts (Dispatch/Model.v), which is what makes the finite "
+        "Modelled, not verified: the documentation renderer (Docs/Model.v = Docs::get_doc_lines, to_markdown, gen_for_rust_link; HashMap lookup as "
+        "first-match association over distinct keys, str::trim as ASCII white space), tied by agree_md goals on generated doc lines, links of every kind, "
+        "path lengths 1..6 and base-URL settings; the gate (Gate/Model.v) and the depth bound of what it accepts (Dispatch/Model.v), which is what makes the finite "
         "witness enumeration complete up to shape class. NOT modelled: the >60 unreachable!/panic! sites of the backends themselves and arithmetic / "
         "indexing panics inside formatting code: those are only reachable by the runs (partial)",
         [{"pos": cs[0][0], "rust": gate_run.rust_ty(cs[0][1])}, {"pos": cs[-1][0], "rust": gate_run.rust_ty(cs[-1][1])}],
         ["sources that panic while being parsed into the AST (before lowering; decided for core/src/ast sites by the backtrace containing ast::File::from) are outside the property",
          "uniformity inside a shape class (a backend treating two members of one class differently) is assumed, not proved"],
-        {"witnesses": len(cs), "tool_runs": len(res) + big, "fixed_bridge_runs": fixed, "runs_past_lowering": ok_runs, "recorded_panic_classes": len(panics)})
+        {"witnesses": len(cs), "tool_runs": len(res) + big, "fixed_bridge_runs": fixed, "docs_renderer_cases": ndocs, "docs_link_kinds": dkinds, "runs_past_lowering": ok_runs, "recorded_panic_classes": len(panics)})
